@@ -101,9 +101,27 @@ def reset_counts():
     State.ref_calls = []
 
 
-def shaped(base, shape):
+def alias_pattern(a, k):
+    """Which of the identity-carrying arguments are ONE object: (("alias", (0, 0, 2)),) when the first two are - nothing when
+    all are different objects.  A function may depend on it (`left is right`, in-place updates seen through an alias)."""
+    from .sym import Handle
+
+    hs = [x for x in list(a) + [k[q] for q in sorted(k)] if isinstance(x, Handle)]
+    pat = tuple(next(j for j in range(len(hs)) if hs[j] is hs[i]) for i in range(len(hs)))
+    return (("alias", pat),) if pat != tuple(range(len(hs))) else ()
+
+
+def shaped(base, shape, args=()):
     if shape is None:
         return base
+    if shape[0] == "same":
+        # a function that hands its first identity-carrying argument on (validate(x) -> x): two results are then ONE object
+        from .sym import Handle
+
+        for x in args:
+            if isinstance(x, Handle):
+                return x
+        return Handle(Sym("handle", base))
     if shape[0] == "touchy":
         from .sym import Touchy
 
@@ -141,10 +159,10 @@ def mkprobe(name, shape=None, setup=False):
                 idx = State.ref_counts[name] - 1
             if (name, idx) in State.ref_faults or name in State.fail_fns or (State.fail_args and any(x in State.fail_args for x in a if isinstance(x, Sym))):
                 raise Injected(name)
-            base = Sym(name, a, tuple(sorted(k.items())))
+            base = Sym(name, a, tuple(sorted(k.items())), *alias_pattern(a, k))
             if setup:
-                base = Sym(name, a, tuple(sorted(k.items())), ("inv", "ref"))
-            val = shaped(base, shape)
+                base = Sym(name, a, tuple(sorted(k.items())), ("inv", "ref"), *alias_pattern(a, k))
+            val = shaped(base, shape, a)
             State.ref_calls.append((name, a, dict(k), val))
             return val
         node = getattr(B.TLS, "node", None)
@@ -172,10 +190,10 @@ def mkprobe(name, shape=None, setup=False):
                 raise exc from LowLevel("low-level failure behind the failure of %r" % (node,))
             raise exc
         if setup:
-            base = Sym(name, a, tuple(sorted(k.items())), ("inv", next(State.inv)))
+            base = Sym(name, a, tuple(sorted(k.items())), ("inv", next(State.inv)), *alias_pattern(a, k))
         else:
-            base = Sym(name, a, tuple(sorted(k.items())))
-        val = shaped(base, shape)
+            base = Sym(name, a, tuple(sorted(k.items())), *alias_pattern(a, k))
+        val = shaped(base, shape, a)
         B.ev("FEXIT", token=tok, node=node, fn=name, ok=True, value=val)
         return val
 
